@@ -776,7 +776,7 @@ func TestHeaderParse(t *testing.T) {
 		Rule: "header strings: list-members generated from the W3C grammar (token keys, baggage-octet values, 0..3 properties, optional whitespace in every allowed place) with percent escapes that are valid, decode to invalid UTF-8 (%FF, %C3%28, truncated sequences) or are malformed (%zz, lone %), " +
 			"illegal bytes, empty / keyless properties, repeated keys, 178..182 list-members, list-members of 4096±2 bytes, headers of 8192±2 bytes, one-byte edits of valid headers and random hostile strings; " +
 			"non-trivial = the header has at least two list-members or a percent sign; distinct = distinct case encodings",
-		Quick: 20000, Thorough: 250000,
+		Quick: 40000, Thorough: 400000,
 		Gen: genB, Run: runB,
 		Known: map[string]func(CaseB, vk.Violation) bool{
 			knownCanonicalOverLimit: func(c CaseB, v vk.Violation) bool {
